@@ -25,7 +25,7 @@ structure St where
 
 def loAddr (ip : String) (p : Nat) : Str := Str.ofString s!"{ip}:{p}"
 
-/-- harness `punchAddrs` -/
+/-- harness `punchAddrs`: kind = class letter + a | n | N -/
 def addrsOf (kind : String) (p : Nat) : List Str × List Str :=
   let a := loAddr "127.0.0.1" p
   let mapped := match kind.toList.head? with
@@ -34,7 +34,12 @@ def addrsOf (kind : String) (p : Nat) : List Str × List Str :=
     | some 'h' => [a, loAddr "127.0.0.1" (p + 20)]
     | some 'i' => [a, loAddr "127.0.0.9" p]
     | _ => [a, Str.ofString "nocolon"]
-  (mapped, if kind.toList.getLast? = some 'a' then [a] else [])
+  -- the tail: a = the own address, n = none, a number N = the idle local sockets at ports p+2 .. p+1+N
+  let tail := (kind.drop 1).toString
+  let idle := match tail.toNat? with
+    | some n => (List.range (if n ≤ 12 then n else 0)).map (fun j => loAddr "127.0.0.1" (p + 2 + j))
+    | none => []
+  (mapped, (if tail = "a" then [a] else []) ++ idle)
 
 def third : Str := Str.ofString "T"
 
